@@ -81,7 +81,7 @@ theorem verify_frame (sha : Bytes → Bytes) (s s' : InScope) (ign ok : Bool)
 /-- **after successful verification the amount and script in use are those of the verified previous output**:
     an accompanying `witness_utxo` that contradicts it makes verification fail -/
 theorem verified_utxo_is_prev_output (sha : Bytes → Bytes) (s s' : InScope) (ign : Bool)
-    (h : InScope.verify sha s ign = some (true, s')) (hp : s.prevOut.isSome) :
+    (h : InScope.verify sha s ign = some (true, s')) (hw : s.witnessUtxo.isSome ∨ s.prevOut.isSome) :
     s'.utxo = s.prevOut ∧ s'.verified = true := by
   unfold InScope.verify at h
   repeat' (split at h)
